@@ -16,6 +16,7 @@ import (
 	"verif/internal/corpus"
 	"verif/internal/gen"
 	"verif/internal/hx"
+	"verif/internal/knownfind"
 	"verif/internal/mutate"
 	"verif/internal/recipe"
 	"verif/internal/rt"
@@ -55,7 +56,35 @@ func parsesAsFragment(b []byte) error {
 	return err
 }
 
-func check(c Case) error {
+func check(c Case) error { return checkX(c, true) }
+
+// probe is the check known-finding examples are replayed through (no exclusion).
+func probe(c Case) error { return checkX(c, false) }
+
+// inKnownClass reports whether the raw rendering of the case falls into the input class of a
+// known finding (KF1: gofmt strips parentheses protecting a generic composite literal).
+func inKnownClass(c Case) bool {
+	known := false
+	_ = hx.Safe(func() error {
+		c.Forms.Rewind()
+		f := (&recipe.Builder{Forms: c.Forms}).File(noFormat(c.File))
+		buf := &bytes.Buffer{}
+		if f.Render(buf) != nil {
+			return nil
+		}
+		af, err := parser.ParseFile(token.NewFileSet(), "", buf.Bytes(), 0)
+		if err == nil && knownfind.GofmtStripsGenericLitParens(af) {
+			known = true
+		}
+		return nil
+	})
+	return known
+}
+
+func checkX(c Case, exclude bool) error {
+	if exclude && inKnownClass(c) {
+		return nil
+	}
 	c.Forms.Rewind()
 	ba := &recipe.Builder{Forms: c.Forms}
 	var fa *jen.File
@@ -225,11 +254,15 @@ func TestC02(t *testing.T) {
 			calls += recipe.CountCalls(n)
 		}
 		oc := outcome(c)
+		if inKnownClass(c) {
+			r.ExcludedKnown()
+		}
 		r.Class(kind + ":" + oc)
 		if calls >= 3 {
 			r.NonTrivial(recipe.JSON(c.File))
 		}
 	}
+	hx.Replay(r, hx.Check[Case]{Name: "known_finding_probe", Fn: probe})
 	hx.Rapid(r, t, hx.Check[Case]{Name: "random_tree", Fn: check}, r.N(2500, 25000), func(rt *rapid.T) Case {
 		f := gen.FileSettings(rt)
 		n := rapid.IntRange(1, 3).Draw(rt, "nbody")
